@@ -351,12 +351,20 @@ impl Interpreter {
                 let b = state.stack.pop_bigint()?;
                 let a = state.stack.pop_bigint()?;
 
+                if b == BigInt::from(0) {
+                    return Err(InterpreterError::InvalidStackOperation("OP_DIV failed, division by zero"));
+                }
+
                 state.stack.push_bigint(a / b)?;
             }
             OpCodes::OP_MOD => {
                 // a b OP_MOD: b is the top item
                 let b = state.stack.pop_bigint()?;
                 let a = state.stack.pop_bigint()?;
+
+                if b == BigInt::from(0) {
+                    return Err(InterpreterError::InvalidStackOperation("OP_MOD failed, division by zero"));
+                }
 
                 state.stack.push_bigint(a % b)?;
             }
